@@ -131,7 +131,7 @@ def main():
     rng.shuffle(order)
     for i in range(n):
         name = order[i % len(order)]
-        cfg = mg.random_cfg(rng, name) if i >= len(order) else mg.default_cfg(name)
+        cfg = mg.random_cfg(rng, name, unaligned=True) if i >= len(order) else mg.default_cfg(name)
         cfg["align"], cfg["permutate"] = "none", False
         if cfg["dyn"] == "abw":
             cfg["dyn"] = "bwff"
